@@ -63,7 +63,10 @@ def numVerdict (dec sci : Char) (s : Str) (impl : Option (List String)) : String
       if v1 != "ok" then v1
       else match pi with
         | none => if iintv == "exc:bpp" then "ok" else "FAIL:toInt_raises"
-        | some p => if iintv == toString (Number.clampInt p.value) then "ok" else "FAIL:toInt_value"
+        | some p =>
+          -- the grammar's value when it is an `int`, an exception otherwise
+          let want := if Number.intMin ≤ p.value && p.value ≤ Number.intMax then toString p.value else "exc:bpp"
+          if iintv == want then "ok" else "FAIL:toInt_value"
   | some _ => "FAIL:parse"
 
 def showMap (m : Keyval.Map) : String :=
